@@ -43,7 +43,8 @@ THEOREMS = [
 RULE = ("frame cases: operator from the per-subscription-state catalogue x parameters around the event count x 2-4 subscriptions "
         "created at random points of a random interleaving of per-subscription events (terminals and post-terminal events included); "
         "resub cases: random cold pipelines (source kind x 1-3 stages from ~90 stage kinds) subscribed 2-3 times sequentially "
-        "(gap > horizon) or overlapping (gaps 0..60). Non-trivial: at least two subscriptions each delivering >= 1 notification. "
+        "(gap > horizon) or overlapping (gaps 0..60); time operators also with durations of several hundred ticks, larger than the virtual time "
+        "of the earliest subscription (50/100), re-subscribed 150..700 ticks later. Non-trivial: at least two subscriptions each delivering >= 1 notification. "
         "Distinct by canonical JSON.")
 ASSUMPTIONS = [
     "the capture translator classifies scopes and mutable objects correctly (fail closed on unknown shapes); its classification rules are in harness/xlate/captures.py",
@@ -232,6 +233,9 @@ SOURCES = ["cold", "cold", "cold", "of", "range", "catch", "oern", "concat", "fo
 # sources / stages whose fallback is chosen by a FACTORY that branches on the error it is handed (None for the first one)
 FACTORY_KINDS = {"oern_factory", "oern_mixed", "oern_factory_stage", "catch_branch"}
 SEQ_ONLY = {"while_do", "do_while"}
+TIME_STAGES = {"delay", "debounce", "throttle_first", "timeout", "sample", "buffer_time", "window_time", "delay_subscription", "take_with_time",
+               "skip_with_time", "take_last_with_time", "skip_last_with_time", "skip_until_with_time", "take_until_with_time", "time_interval",
+               "timestamp", "throttle_with_mapper", "delay_with_mapper", "timeout_with_mapper"}
 
 
 def gen_cold(rng, maxlen=5, allow_error=True):
@@ -261,6 +265,11 @@ def gen_resub_cases(rng, tier):
             gaps = [rng.choice([0, 5, 10, 15, 25, 40, 60]) for _ in range(k - 1)]
         c = {"op": "resub", "source": rng.choice(SOURCES), "colds": [gen_cold(rng) for _ in range(4)], "stages": stages,
              "gaps": gaps, "seq": seq, "vals": [rng.randrange(0, 5) for _ in range(rng.randrange(0, 4))], "n": rng.randrange(0, 4)}
+        if any(s[0] in TIME_STAGES for s in stages) and rng.random() < 0.6:
+            # absolute-clock dependence shows only when a duration exceeds the virtual time of the earliest subscription:
+            # subscribe early (50/100) and late (gap), with durations up to several hundred ticks
+            c["t0"] = rng.choice([50, 100, 100, 200])
+            c["tscale"] = rng.choice([1, 10, 20, 20])
         if c["source"] in FACTORY_KINDS or any(s[0] in FACTORY_KINDS for s in stages):
             # the fallback chosen by a factory depends on the error of the previous source: make sources that fail likely,
             # also the last one of the chain (so that a stale error would still be around when the next subscription starts)
@@ -270,6 +279,27 @@ def gen_resub_cases(rng, tier):
                     t = (msgs[-1][0] if msgs else 0) + rng.choice([5, 10, 20])
                     c["colds"][k] = msgs + [[t, ["E", "src%d" % rng.randrange(2)]]]
         yield c
+
+
+DURATION_STAGES = ["delay", "debounce", "throttle_first", "timeout", "sample", "buffer_time", "window_time", "delay_subscription",
+                   "take_with_time", "skip_with_time", "take_last_with_time", "skip_last_with_time", "skip_until_with_time",
+                   "take_until_with_time", "time_interval", "timestamp"]
+
+
+def gen_time_cases(rng, tier):
+    """one time operator over a cold source that emits early, subscribed at a SMALL virtual time and again much later, with a
+    duration LARGER than the first subscription instant: any dependence on the absolute clock shows as a difference"""
+    for _ in range(fw.tier_scale(tier, 450, 4000)):
+        st = rng.choice(DURATION_STAGES)
+        stages = [[st, rng.randrange(0, 4), rng.randrange(1 << 16)]]
+        if rng.random() < 0.3:
+            stages.append([rng.choice(["map", "take", "to_list", "scan", "distinct_until_changed"]), rng.randrange(1, 4), rng.randrange(1 << 16)])
+        seq = rng.random() < 0.6
+        k = rng.choice([2, 2, 3])
+        gaps = [HORIZON + 100] * (k - 1) if seq else [rng.choice([150, 300, 350, 450]) for _ in range(k - 1)]
+        cold = gen_cold(rng, maxlen=5, allow_error=rng.random() < 0.3)
+        yield {"op": "resub", "source": "cold", "colds": [cold] + [gen_cold(rng) for _ in range(3)], "stages": stages, "gaps": gaps, "seq": seq,
+               "vals": [], "n": 0, "t0": rng.choice([50, 100]), "tscale": rng.choice([10, 20, 20, 40])}
 
 
 class World:
@@ -402,6 +432,7 @@ def apply_stage(w: World, o, st, idx):
     r = random.Random(seed)
     c1, c2 = (idx * 2 + 1), (idx * 2 + 2)
     m = r.choice([2, 3])
+    ts = w.case.get("tscale", 1)  # time parameters: small (5..40) or larger than the earliest subscription instant (up to 800)
     if name == "map": return o.pipe(ops.map(lambda x: x * 2 + 1))
     if name == "map_indexed": return o.pipe(ops.map_indexed(lambda x, i: (x, i)))
     if name == "filter": return o.pipe(ops.filter(lambda x: _num(x) % m != 0))
@@ -454,16 +485,16 @@ def apply_stage(w: World, o, st, idx):
     if name == "do_while": return o.pipe(ops.do_while(w.counting(n)))
     if name == "materialize_dematerialize": return o.pipe(ops.materialize(), ops.dematerialize())
     if name == "do_action": return o.pipe(ops.do_action(lambda x: None))
-    if name == "delay": return o.pipe(ops.delay(5 * n + 5))
-    if name == "debounce": return o.pipe(ops.debounce(5 * n + 5))
-    if name == "throttle_first": return o.pipe(ops.throttle_first(5 * n + 5))
-    if name == "timeout": return o.pipe(ops.timeout(10 * n + 15, w.cold(c1)))
-    if name == "sample": return o.pipe(ops.sample(10 * n + 10))
+    if name == "delay": return o.pipe(ops.delay(ts * (5 * n + 5)))
+    if name == "debounce": return o.pipe(ops.debounce(ts * (5 * n + 5)))
+    if name == "throttle_first": return o.pipe(ops.throttle_first(ts * (5 * n + 5)))
+    if name == "timeout": return o.pipe(ops.timeout(ts * (10 * n + 15), w.cold(c1)))
+    if name == "sample": return o.pipe(ops.sample(ts * (10 * n + 10)))
     if name == "sample_obs": return o.pipe(ops.sample(w.cold(c1)))
     if name == "window_count": return o.pipe(ops.window_with_count(n + 1), ops.flat_map(lambda win: win.pipe(ops.to_list())))
     if name == "buffer_count": return o.pipe(ops.buffer_with_count(n + 1, r.choice([None, 1, 2])))
-    if name == "buffer_time": return o.pipe(ops.buffer_with_time(10 * n + 10))
-    if name == "window_time": return o.pipe(ops.window_with_time(10 * n + 10), ops.flat_map(lambda win: win.pipe(ops.to_list())))
+    if name == "buffer_time": return o.pipe(ops.buffer_with_time(ts * (10 * n + 10)))
+    if name == "window_time": return o.pipe(ops.window_with_time(ts * (10 * n + 10)), ops.flat_map(lambda win: win.pipe(ops.to_list())))
     if name == "group_by": return o.pipe(ops.group_by(lambda x: _num(x) % m), ops.flat_map(lambda g: g.pipe(ops.to_list(), ops.map(lambda l: (g.key, tuple(l))))))
     if name == "to_list": return o.pipe(ops.to_list())
     if name == "first": return o.pipe(ops.first())
@@ -486,13 +517,13 @@ def apply_stage(w: World, o, st, idx):
         return o.pipe(ops.timestamp(), ops.map(lambda t: t.value))
     if name == "time_interval": return o.pipe(ops.time_interval(), ops.map(lambda t: (t.value, int(t.interval.total_seconds()))))
     if name == "finally_action": return o.pipe(ops.finally_action(lambda: None))
-    if name == "delay_subscription": return o.pipe(ops.delay_subscription(5 * n + 5))
-    if name == "take_with_time": return o.pipe(ops.take_with_time(10 * n + 15))
-    if name == "skip_with_time": return o.pipe(ops.skip_with_time(10 * n + 15))
-    if name == "take_last_with_time": return o.pipe(ops.take_last_with_time(10 * n + 15))
-    if name == "skip_last_with_time": return o.pipe(ops.skip_last_with_time(10 * n + 15))
-    if name == "skip_until_with_time": return o.pipe(ops.skip_until_with_time(10 * n + 15))
-    if name == "take_until_with_time": return o.pipe(ops.take_until_with_time(10 * n + 15))
+    if name == "delay_subscription": return o.pipe(ops.delay_subscription(ts * (5 * n + 5)))
+    if name == "take_with_time": return o.pipe(ops.take_with_time(ts * (10 * n + 15)))
+    if name == "skip_with_time": return o.pipe(ops.skip_with_time(ts * (10 * n + 15)))
+    if name == "take_last_with_time": return o.pipe(ops.take_last_with_time(ts * (10 * n + 15)))
+    if name == "skip_last_with_time": return o.pipe(ops.skip_last_with_time(ts * (10 * n + 15)))
+    if name == "skip_until_with_time": return o.pipe(ops.skip_until_with_time(ts * (10 * n + 15)))
+    if name == "take_until_with_time": return o.pipe(ops.take_until_with_time(ts * (10 * n + 15)))
     if name == "expand":
         return o.pipe(ops.expand(lambda x: rx.of(_num(x) + 2) if _num(x) < 4 else rx.empty()), ops.take(12))
     # `partition` is not in the catalogue: it is `publish() + ref_count()` by construction (multicasting, excluded by the property)
@@ -566,7 +597,7 @@ def _run_resub(case):
     except Exception as e:  # construction-time error: nothing to subscribe to
         return {"build_error": err_name(e)}
     sched = w.sched
-    times = [200]
+    times = [case.get("t0", 200)]
     for g in case["gaps"]:
         times.append(times[-1] + g)
     logs = [[] for _ in times]
@@ -619,6 +650,7 @@ def _run_resub(case):
 def cases(rng, tier):
     yield from gen_frame_cases(rng, tier)
     yield from gen_resub_cases(rng, tier)
+    yield from gen_time_cases(rng, tier)
 
 
 def model_request(case):
